@@ -585,8 +585,8 @@ theorem onRun_frame (Q : Bytes → Bool) (C L : Nat → Prop) (k : CS → Oracle
     PAFrame Q C L c.dev (onRun k rest c a o out tmo left) := by
   unfold onRun
   dsimp only
-  have hIL := innerLoop_frame Q c.env.now 64 { c.dev with wake := none } a o [] hQ (by simp)
-  generalize innerLoop c.env.now 64 { c.dev with wake := none } a o [] = r at *
+  have hIL := innerLoop_frame Q c.env.now (loopBound a) { c.dev with wake := none } a o [] hQ (by simp)
+  generalize innerLoop c.env.now (loopBound a) { c.dev with wake := none } a o [] = r at *
   have hplugs : r.dev.plugs = c.dev.plugs := hIL.plugs
   have hscripts : r.dev.scripts = c.dev.scripts := hIL.scripts
   have hstore : StoreFrame Q L c.dev.args r.dev.args := hIL.store ha.2
@@ -843,7 +843,7 @@ def onRunTail (k : CS → Oracle → List Out → Option Time → PA) (rest : Li
   else failAll rest { c with dev := r.dev } r.act r.oracle out tmo
 
 theorem onRun_eq (k rest c a o out tmo left) :
-    onRun k rest c a o out tmo left = onRunTail k rest c (innerLoop c.env.now 64 { c.dev with wake := none } a o []) out tmo left := rfl
+    onRun k rest c a o out tmo left = onRunTail k rest c (innerLoop c.env.now (loopBound a) { c.dev with wake := none } a o []) out tmo left := rfl
 
 /-- the tail of one round of the `do … while` loop -/
 def innerStep (now : Time) (n : Nat) (a : Action) (acc : List Out) (q : StepR) : StepR :=
